@@ -463,6 +463,18 @@ class Interp:
         except Ret as r:
             return r.v
 
+    def run_body(self, body, env):
+        """evaluate a function body record (facts.body(..)) in the given environment, which is updated in place; `return` ends the evaluation"""
+        saved = getattr(self, 'file', None)
+        if body.get('file'):
+            self.file = body['file']
+        try:
+            return self.val(body['body'], env)
+        except Ret as r:
+            return r.v
+        finally:
+            self.file = saved
+
     def val(self, e, env):
         k = e.get('k')
         if k == 'block' and e.get('inl'):
